@@ -33,6 +33,18 @@ CHECKS = {
         "runtime monitoring: reference-model oracle over reader emissions + icontract post-conditions vs independent scanner",
         "3/C02",
     ),
+    "C14": (
+        "exploration",
+        "Runtime monitor (metamorphic) on the real fixed-to-free converter + reader + parser: each generated program is written "
+        "from one statement list as plain free form and as fixed form (random continuation breaks, every printable non-blank "
+        "non-zero continuation character, labels, C/c/*/! comment lines, blank/short lines also inside continuations, doc comments "
+        "after/inline/before, sequence-field text or long lines) and the canonical entity tables incl. calls and documentation "
+        "words are compared, with fixed_length_limit on and off.",
+        "Trusts the layout engine to keep the token sequence (breaks only at blanks outside literals); no tab form; inline docs end "
+        "before column 73 when the limit is on.",
+        "runtime monitoring: metamorphic oracle (fixed vs free rendering of the same statement list) over FORD's entity tree",
+        "3/C14",
+    ),
     "C15": (
         "exploration",
         "Runtime monitor on the real ford.initialize() (argparse + load_settings + parse_arguments): every field of ProjectSettings "
